@@ -404,6 +404,34 @@ async fn episode(p: &EpParams, mt: bool) -> EpReport {
             tasks.push(tokio::spawn(meddler(mk(&w), s.clone(), rng.range(2, 8), rng.fork(6), Arc::clone(&pool), mt, allow_modify)));
         }
     }
+    // C08: now and then payloads of a megabyte each, published two per request, and a unary Pull
+    // whose batch of five is bigger than any sensible response size: first deliveries keep their order
+    if prof == Profile::C08 && rng.chance(1, 20) {
+        let cx = mk(&w);
+        let reader = mk(&w);
+        let (t, s) = (ta.clone(), subs[0].clone());
+        let pl = Arc::clone(&pool);
+        tasks.push(tokio::spawn(async move {
+            for r in 0..3 {
+                let msgs: Vec<Msg> = (0..2)
+                    .map(|j| {
+                        let tag = format!("c{}#mb{}.{}", cx.id, r, j);
+                        let mut m = Msg::tagged(&tag);
+                        m.data = format!("T:{}|", tag).into_bytes();
+                        m.data.extend(std::iter::repeat(b'z').take(1 << 20));
+                        m
+                    })
+                    .collect();
+                let _ = cx.publish(&t, &msgs).await;
+            }
+            for _ in 0..4 {
+                if let Ok(ds) = reader.pull(&s, 5, true).await {
+                    pl.add(&s, ds.iter().map(|d| d.ack_id.clone()));
+                }
+            }
+        }));
+        shape.push("megabytes".into());
+    }
     // C08: a subscription created and deleted at the same moment, while the publishers are busy
     // (a publish that meets the half-attached, already deleted subscription fails after the
     // healthy subscriptions got its messages: the ids it consumed must not come back)
